@@ -282,15 +282,16 @@ def tile_padding_shifts(op, cmd, npu_op):
     return out
 
 
-def stream_line(art, extents, extra_init=()):
-    """Build the `streamcheck` request for one captured stream. `extents` = {region: bytes}."""
+def stream_line(art, extents, extra_init=(), tids=None, parts=False):
+    """Build the `streamcheck` request for one captured stream. `extents` = {region: bytes}.
+    With parts=True returns (infos, init) instead (used by inference_line, which shares one TidMap)."""
     from ethosu.vela.high_level_command_stream import DMA, NpuStripe
     from ethosu.vela.api import NpuDmaOperation
     from ethosu.vela.tensor import TensorPurpose
     from ethosu.vela.weight_compressor import WeightKey
 
     arch = art.arch
-    tids = TidMap()
+    tids = tids if tids is not None else TidMap()
     infos = []
     from ethosu.vela.high_level_command_stream import NOP
 
@@ -361,6 +362,8 @@ def stream_line(art, extents, extra_init=()):
             r = region_of(tens.mem_type, arch)
             if r in (1, 2) and tens.address is not None:
                 init.append(f"{r}:{int(tens.address)}:{int(tens.storage_size())}:{tids.tid(tens)}:{-int(tens.address)}")
+    if parts:
+        return infos, init
     ext = ",".join(f"{r}:{int(s)}" for r, s in sorted(extents.items()))
     line = (f"streamcheck shram={int(arch.shram_size_bytes)} lutbase={int(arch.shram_lut_address)} ext={ext} "
             f"init={','.join(init)} infos={';'.join(infos)} words={','.join(map(str, art.words))}")
@@ -457,3 +460,58 @@ def op_meta(art):
                      ofm_box=[list(map(int, cmd.ofm_box.start_coord)), list(map(int, cmd.ofm_box.end_coord))])
         metas.append(m)
     return metas
+
+
+def inference_line(res, extents):
+    """`inferencecheck` request: the operator sequence of the output graph (CPU operators read and define
+    their arena operands, every Ethos-U operator runs its stream) over one tagged memory."""
+    from ethosu.vela.high_level_command_stream import NOP
+    from ethosu.vela.operation import Op
+
+    nng, arch = res.nng, res.arch
+    if nng is None or not res.streams:
+        return None
+    tids = TidMap()
+    by_sg = {}
+    for art in res.streams:
+        if art.sg is not None:
+            by_sg[art.sg] = art
+            for c in art.sg.high_level_command_stream:
+                if isinstance(c, NOP):
+                    tids.union(c.in_tensor, c.out_tensor)
+    root = nng.get_root_subgraph()
+
+    def tagged(tens):
+        r = region_of(tens.mem_type, arch)
+        if r not in (1, 2) or tens.address is None:
+            return None
+        # the bytes a CPU kernel touches: the elements themselves (storage_size() is rounded up to the allocation quantum)
+        n = int(tens.dtype.size_in_bytes())
+        for d in tens.shape:
+            n *= int(d)
+        if n <= 0:
+            return None
+        return f"{r}:{int(tens.address)}:{n}:{tids.tid(tens)}:{-int(tens.address)}"
+
+    init = [t for t in (tagged(x) for x in root.input_tensors) if t]
+    steps = []
+    for cps in root.cascaded_passes:
+        for ps in cps.passes:
+            for op in ps.ops:
+                if op.type in (Op.Const, Op.Placeholder, Op.SubgraphInput):
+                    continue
+                if op.type == Op.CustomNpuOp:
+                    art = by_sg.get(op.attrs.get("subgraph"))
+                    if art is None:
+                        return None
+                    infos, _init = stream_line(art, extents, tids=tids, parts=True)
+                    steps.append("step=npu~" + ";".join(infos) + "~" + ",".join(map(str, art.words)))
+                    continue
+                mem_ifms = set()
+                rd = [t for t in (tagged(x) for x in op.inputs if x is not None and x not in mem_ifms) if t]
+                wr = [t for t in (tagged(x) for x in op.outputs if x is not None) if t]
+                name = (op.type.name + "_" + str(op.name)).replace(" ", "_").replace("~", "_")[:60]
+                steps.append("step=cpu~" + name + "~" + ",".join(rd) + "~" + ",".join(wr))
+    ext = ",".join(f"{r}:{int(s)}" for r, s in sorted(extents.items()))
+    return (f"inferencecheck shram={int(arch.shram_size_bytes)} lutbase={int(arch.shram_lut_address)} ext={ext} "
+            f"init={','.join(init)} " + " ".join(steps))
